@@ -15,6 +15,7 @@ import (
 	"encoding/json"
 	"flag"
 	"fmt"
+	"math/rand"
 	"os"
 	"path/filepath"
 	"regexp"
@@ -235,6 +236,11 @@ func doGen(id string, p Prop, tier string, seed int64, out string, nshards int) 
 	startWatchdog(hangLimit())
 	p.Gen(tier, seed, func(h []Ev) {
 		tick(h)
+		for i, e := range h {
+			if _, ok := e["ord"]; !ok {
+				e["ord"] = ordOf(seed, hid, i)
+			}
+		}
 		evs := execGuarded(p, h)
 		k := hid % nshards
 		enc := json.NewEncoder(files[k])
@@ -483,6 +489,34 @@ func GS(v interface{}) string  { s, _ := v.(string); return s }
 func GBool(v interface{}) bool { b, _ := v.(bool); return b }
 
 // GIs reads an int array field.
+// ordOf: the order key of an event (recorded in the trace, so that a replay queries in the same order): 0 for a third
+// of the events (getters in their listed order), a permutation seed otherwise.
+func ordOf(seed int64, hid, i int) int {
+	x := uint64(seed)*0x9e3779b97f4a7c15 + uint64(hid)*0xbf58476d1ce4e5b9 + uint64(i)*0x94d049bb133111eb
+	x ^= x >> 31
+	x *= 0xd6e8feb86659fd93
+	x ^= x >> 29
+	if x%3 == 0 {
+		return 0
+	}
+	return 1 + int(x>>8%1000000)
+}
+
+// inOrder runs the getter closures of a freshly returned object in the order the event's key selects: what a getter
+// reports must not depend on which other getters were called before it.
+func inOrder(e Ev, gets ...func()) {
+	key := GI0(e["ord"])
+	if key == 0 {
+		for _, g := range gets {
+			g()
+		}
+		return
+	}
+	for _, i := range rand.New(rand.NewSource(int64(key))).Perm(len(gets)) {
+		gets[i]()
+	}
+}
+
 // GI0 is GI with 0 for an absent field.
 func GI0(v interface{}) int {
 	if v == nil {
